@@ -112,7 +112,7 @@ def h_solve(s, programs, hint_mode):
 
 def items(tier, rng):
     q = tier == "quick"
-    progs = P.linear_programs(rng, 4 if q else 40) + P.global_programs(rng, 8 if q else 120, big=not q) + P.pair_programs(rng, 120 if q else 3000) + P.mixed_pair_programs(rng, 60 if q else 600) + P.zero_weight_programs() + P.sum_programs()
+    progs = P.linear_programs(rng, 4 if q else 40) + P.global_programs(rng, 8 if q else 120, big=not q) + P.pair_programs(rng, 120 if q else 3000) + P.mixed_pair_programs(rng, 60 if q else 600) + P.zero_weight_programs() + P.sum_programs() + P.pinned_programs()
     out = []
     for ch in P.chunks(progs, 6):
         out.append({"name": "solve", "harness": "h_solve", "params": {"programs": ch, "hint_mode": "none"}})
